@@ -52,6 +52,7 @@ impl Signature {
 }
 impl Script {
 //@fn Script::match_impl
+//@wrapper Script::matches @ src/script/script_template.rs = Script::match_impl
 //@fn Script::test_impl
 //@fn Script::is_match
 }
